@@ -135,6 +135,9 @@ def run(ctx: Ctx) -> Result:
                 if now < 0: continue
                 cfg = vmrun.Cfg(now=now)
                 cache = {'timestamp': t}
+                if (t + now + dt) % 4 == 0:
+                    # the verifier's clock is the interpreter's: no entry of the embedder's context, whatever it is called, stands in for it
+                    cache = {'timestamp': t, 'clock': now - 99999, 'now': 1, 'time': now + 99999, 'epoch': 0}
                 slack_ok = t - now < 60
                 cases.append(('after_lock', cfg, cache, T.make_timestamp_after_lock(ts).bytes, 'T' if (t >= ts and slack_ok) else 'F', (ts, t, now, 60)))
                 cases.append(('before_lock', cfg, cache, T.make_timestamp_before_lock(ts).bytes, 'T' if t < ts else 'F', (ts, t, now, 60)))
